@@ -92,15 +92,19 @@ func runBounded(s boundedSpec, tier string, seed int, scratch string) boundedRes
 	cmd.Stdout = &out
 	cmd.Stderr = &out
 	cmd.Run()
-	res.Output = out.String()
-	if len(res.Output) > 4000 {
-		res.Output = res.Output[:4000]
-	}
+	full := out.String()
 	res.WallS = time.Since(t0).Seconds()
-	res.Known = firstLines(grepLine(res.Output, "BOUNDED-KNOWN"), 1)
-	if m := casesRe.FindStringSubmatch(res.Output); m != nil && !strings.Contains(res.Output, "BOUNDED-FAIL") && strings.Contains(res.Output, "\nok ") {
+	res.Known = firstLines(grepLine(full, "BOUNDED-KNOWN"), 1)
+	if m := casesRe.FindStringSubmatch(full); m != nil && !strings.Contains(full, "BOUNDED-FAIL") && strings.Contains(full, "\nok ") {
 		res.OK = true
 		res.Cases, _ = strconv.Atoi(m[1])
+	}
+	// keep the verdict lines and the tail of a long output
+	res.Output = grepLine(full, "BOUNDED-") + "\n"
+	if len(full) > 4000 {
+		res.Output += "…\n" + full[len(full)-4000:]
+	} else {
+		res.Output += full
 	}
 	return res
 }
